@@ -87,6 +87,15 @@ func (w *chunkFailWriter) Write(p []byte) (int, error) {
 	return m, nil
 }
 
+// byteFailWriter is a failWriter that also offers io.ByteWriter (like bytes.Buffer and
+// bufio.Writer do): an optional capability an encoder might use for single bytes.
+type byteFailWriter struct{ failWriter }
+
+func (w *byteFailWriter) WriteByte(b byte) error {
+	_, err := w.failWriter.Write([]byte{b})
+	return err
+}
+
 type failWriter struct {
 	buf    bytes.Buffer
 	budget int
@@ -279,6 +288,59 @@ func TestC13(t *testing.T) {
 		})
 		out.emit("primsub", "c13pc", []string{hexBytes(data), intsCSV(chunks), b01(eof), failS, hx(uint64(scope)), strings.Join(script, ",")}, obs)
 	}
+	// siblings under a nested scope: reads through the first child use up the limit of the
+	// PARENT scope (its index does not move), so a second child cannot read past it — enumerated
+	{
+		data := make([]byte, 14)
+		for i := range data {
+			data[i] = byte(0xa0 + i)
+		}
+		runScript := func(script []string) string {
+			return guard(func() string {
+				cur := codec.NewDecodingReader(&schedReader{data: append([]byte{}, data...), chunks: []int{3, 1, 2}, failAfter: -1}, uint64(len(data)))
+				var stack []*codec.DecodingReader
+				var parts []string
+				for _, q := range script {
+					switch q[0] {
+					case 's':
+						c, _ := strconv.ParseUint(q[1:], 16, 64)
+						sub, err := cur.SubScope(c)
+						if err != nil {
+							return strings.Join(append(parts, "ERR"), ",")
+						}
+						stack = append(stack, cur)
+						cur = sub
+						parts = append(parts, "sub")
+					case 'u':
+						cur = stack[len(stack)-1]
+						stack = stack[:len(stack)-1]
+						parts = append(parts, "up")
+					default:
+						c, _ := strconv.ParseUint(q[1:], 16, 64)
+						p := make([]byte, c)
+						if _, err := cur.Read(p); err != nil {
+							return strings.Join(append(parts, "ERR"), ",")
+						}
+						parts = append(parts, hexBytes(p))
+					}
+				}
+				return strings.Join(parts, ",")
+			})
+		}
+		for p := 3; p <= 7; p++ {
+			for a := 1; a <= p; a++ {
+				for b := 1; b <= p; b++ {
+					if !thorough() && (a+b+p)%2 == 1 {
+						continue
+					}
+					for _, x := range []int{0, 2} {
+						script := []string{"s" + hx(uint64(p)), "s" + hx(uint64(a)), "r" + hx(uint64(a)), "u", "s" + hx(uint64(b)), "r" + hx(uint64(b)), "u", "r" + hx(uint64(x)), "u", "r3"}
+						out.emit("siblings", "c13pc", []string{hexBytes(data), "3,1,2", "0", "-", hx(uint64(len(data))), strings.Join(script, ",")}, runScript(script))
+					}
+				}
+			}
+		}
+	}
 	// Read and Skip sequences on a plain byte reader
 	for k := 0; k < n*4; k++ {
 		data := make([]byte, g.r.Intn(40))
@@ -451,6 +513,25 @@ func TestC13(t *testing.T) {
 					return joinKV("err="+b01(err != nil), "accepted="+hexBytes(fw.buf.Bytes()), "written="+hx(uint64(ew.Written())))
 				})
 				out.emit("write-"+kind, "c13w", []string{kind, ty.Sexp(), v.Sexp(), hx(uint64(p))}, obs)
+				{
+					// the same budget on a sink that also implements io.ByteWriter
+					obsB := guard(func() string {
+						fw := &byteFailWriter{failWriter{budget: p}}
+						ew := codec.NewEncodingWriter(fw)
+						var err error
+						if kind == "view" {
+							vw, e2 := buildView(ty, v)
+							if e2 != nil {
+								return "enc=ERR"
+							}
+							err = vw.Serialize(ew)
+						} else {
+							err = flatOf(ty, v).Serialize(ew)
+						}
+						return joinKV("err="+b01(err != nil), "accepted="+hexBytes(fw.buf.Bytes()), "written="+hx(uint64(ew.Written())))
+					})
+					out.emit("writeB-"+kind, "c13w", []string{kind, ty.Sexp(), v.Sexp(), hx(uint64(p))}, obsB)
+				}
 				{
 					// the same with a writer that also makes short writes
 					chunk := 1 + p%3
